@@ -1,23 +1,31 @@
 def _extra(ctx):
-    """Cross-build determinism: every case of config 'big' must have reported one single sequence hash across all units
-    (TBB and non-TBB builds, all thread limits)."""
+    """Cross-build determinism: every case of the configs 'big' (Simplex_tree) and 'cubical' (Bitmap_cubical_complex) must have reported
+    one single sequence hash across all units (TBB and non-TBB builds, all thread limits)."""
     agg = ctx["agg"]
     by_case = {}
     for name, cnt in agg["counters"].items():
         if name.startswith("seqhash|"):
             _, k, h = name.split("|")
             by_case.setdefault(k, {})[h] = cnt
-    ctx["info"]["big_cases_with_hash"] = len(by_case)
-    ctx["info"]["big_cases_seen_by_both_builds"] = sum(1 for v in by_case.values() if sum(v.values()) >= 2)
+    big = {k: v for k, v in by_case.items() if not k.startswith("cub:")}
+    cub = {k: v for k, v in by_case.items() if k.startswith("cub:")}
+    ctx["info"]["big_cases_with_hash"] = len(big)
+    ctx["info"]["big_cases_seen_by_both_builds"] = sum(1 for v in big.values() if sum(v.values()) >= 2)
+    ctx["info"]["cubical_cases_with_hash"] = len(cub)
+    ctx["info"]["cubical_cases_seen_by_both_builds"] = sum(1 for v in cub.values() if sum(v.values()) >= 2)
     for k, hs in by_case.items():
         if len(hs) > 1:
-            agg["viol"].append({"kind": "oracle", "unit": "big_tbb+big_notbb", "config": "big", "case": int(k),
-                                "check": "order.not_deterministic", "sig": "big_complex,across_builds",
+            cubical = k.startswith("cub:")
+            agg["viol"].append({"kind": "oracle", "unit": "big_tbb+big_notbb", "config": "cubical" if cubical else "big", "case": int(k.split(":")[-1]),
+                                "check": "order.not_deterministic", "sig": "cubical_complex,across_builds" if cubical else "big_complex,across_builds",
                                 "detail": "TBB and non-TBB builds (or thread settings) produced different filtration sequences: %s" % hs,
                                 "history": ""})
     for name in list(agg["counters"]):
         if name.startswith("seqhash|"):
             del agg["counters"][name]
+    if by_case:
+        agg["counters"]["cmp.big_seen_by_both_builds"] = ctx["info"]["big_cases_seen_by_both_builds"]
+        agg["counters"]["cmp.cubical_seen_by_both_builds"] = ctx["info"]["cubical_cases_seen_by_both_builds"]
 
 
 SPEC = {
@@ -46,10 +54,10 @@ SPEC = {
             "Filtration_value, hist_mini (store_filtration=false, no prune_above_filtration) checks a faces-first permutation in reverse lexicographic "
             "order; the filtration cache is warm before reset_filtration / make_filtration_non_decreasing / prune / extend_filtration on half of the cases; "
             "(small_dbg) order, mfnd_default, ext_default built WITHOUT -DNDEBUG: a GUDHI_CHECK firing on these valid inputs is a violation "
-            "(debug.gudhi_check); (threads) TSan: 8 threads on independent trees. "
+            "(debug.gudhi_check); (cubical) 1-3 dimensional plain / periodic / vertex-built cubical complexes with 1-5 distinct values and up to ~25000 cells: the filtration order is valid and one single sequence per complex across TBB thread limits and the TBB / non-TBB builds; (threads) TSan: 8 threads on independent trees. "
             "non-trivial = complex with ties and >= 6 simplices / value assignment that changes / non-constant vertex function / big complex >= 3000 simplices",
     "assumptions": ["ThreadSanitizer cannot see into the prebuilt libtbb: the schedule quantifier is decided by functional determinism over perturbed runs, not by race detection",
-                    "Bitmap_cubical_complex::filtration_simplex_range validity is checked by the C13 harness",
+                    "the incidence structure and values of Bitmap_cubical_complex are checked by the C13 harness; here (config cubical) only validity and determinism of its filtration order across thread limits and TBB / non-TBB builds",
                     "oracle::ComplexModel is the trusted model",
                     "extend_filtration is only called with finite vertex values whose range neither overflows nor is subnormal (undocumented numeric "
                     "precondition of the rescaling: such draws are counted under skip.ext_numeric_precondition and not run)",
@@ -77,9 +85,9 @@ SPEC = {
         {"name": "small_dbg", "src": ["c03_order.cpp", "c03_mfnd.cpp", "c03_ext.cpp"], "variant": "asan", "defs": ["C03_LIGHT"], "cflags": ["-UNDEBUG"],
          "configs": {"order": {"quick": 150, "thorough": 5000}, "mfnd_default": {"quick": 300, "thorough": 10000}, "ext_default": {"quick": 300, "thorough": 10000}}, "chunk": 50},
         {"name": "big_tbb", "src": ["c03_big.cpp"], "variant": "asan", "defs": ["GUDHI_USE_TBB"], "libs": ["-ltbb", "-pthread"],
-         "configs": {"big": {"quick": 8, "thorough": 300}}, "chunk": 1},
+         "configs": {"big": {"quick": 8, "thorough": 300}, "cubical": {"quick": 32, "thorough": 600}}, "chunk": 1},
         {"name": "big_notbb", "src": ["c03_big.cpp"], "variant": "asan", "libs": ["-pthread"],
-         "configs": {"big": {"quick": 8, "thorough": 300}}, "chunk": 1},
+         "configs": {"big": {"quick": 8, "thorough": 300}, "cubical": {"quick": 32, "thorough": 600}}, "chunk": 1},
         {"name": "tsan", "src": ["c03_tsan.cpp"], "variant": "tsan",
          "configs": {"threads": {"quick": 48, "thorough": 800}}, "chunk": 3},
     ],
@@ -97,7 +105,8 @@ SPEC = {
                          "value.mfnd_minus_infinity": 500, "value.mfnd_negative_zero": 490, "value.mfnd_max": 500, "value.mfnd_lowest": 500, "value.mfnd_denorm_min": 500,
                          "prune.threshold_minus_infinity": 130, "prune.threshold_negative_zero": 140,
                          "hist.extreme_label_universe": 250, "hist.stream_steps": 1200, "hist.repeated_vertex_inputs": 600, "steps.hist_order_int_values": 2100,
-                         "cmp.filtration_range_without_values": 1800, "cmp.big_sort_stable_handles": 16}},
+                         "cmp.filtration_range_without_values": 1800, "cmp.big_sort_stable_handles": 16,
+                         "cmp.cubical_sort": 200, "cmp.cubical_seen_by_both_builds": 30, "cmp.big_seen_by_both_builds": 8, "cubical.above_parallel_sort_cutoff": 40}},
     "manifest": {
         "text": "Runtime monitor: validity of the filtration order (permutation, monotone, faces first) and its determinism across insertion histories, "
                 "option sets, TBB/non-TBB builds, TBB thread limits, affinity masks and background load (functional determinism monitor with evidence of "
